@@ -435,7 +435,11 @@ func (fc *FnCtx) oblige(st *State, kind, path string, goal *Term, pos token.Posi
 		o.Solver = "trivial"
 	}
 	fc.obls = append(fc.obls, o)
+	n0 := len(fc.sc.facts)
 	fc.sc.Assert(Implies(st.reach, goal))
+	for i := n0; i < len(fc.sc.facts); i++ {
+		fc.sc.oblFact[i] = true
+	}
 	return o
 }
 
